@@ -508,6 +508,9 @@ pub fn name_ladder() -> Vec<(Program, Vec<V>)> {
         out.push((main(vec![], Expr::Let(false, vec![(n.to_string(), Expr::Prim(16, vec![v("P1"), lit(1)]))], Box::new(Expr::Prim(18, vec![v(n), v("P2")])))), envs.clone()));
         out.push((main(vec![], Expr::Assign(vec![(Pat::Cons(Box::new(pv("W")), Box::new(pv(n))), Expr::Prim(4, vec![v("P1"), v("P2")]))], Box::new(Expr::Prim(17, vec![v(n), v("W")])))), envs.clone()));
         out.push((main(vec![], Expr::Apply(Box::new(Expr::Lambda(vec!["P2".into()], pv(n), Box::new(Expr::Prim(17, vec![v(n), v("P2")])))), Box::new(Expr::List(vec![v("P1")])))), envs.clone()));
+        // ... and in a lambda's parameter list, first and last
+        out.push((main(vec![], Expr::Apply(Box::new(Expr::Lambda(vec!["P2".into()], Pat::list(vec![pv(n), pv("W")], Pat::Nil), Box::new(Expr::Prim(17, vec![v(n), Expr::Prim(16, vec![v("W"), v("P2")])])))), Box::new(Expr::List(vec![v("P1"), lit(3)])))), envs.clone()));
+        out.push((main(vec![], Expr::Apply(Box::new(Expr::Lambda(vec!["P2".into()], Pat::list(vec![pv("W"), pv(n)], Pat::Nil), Box::new(Expr::Prim(17, vec![v(n), Expr::Prim(16, vec![v("W"), v("P2")])])))), Box::new(Expr::List(vec![lit(3), v("P1")])))), envs.clone()));
     }
     out
 }
